@@ -199,6 +199,15 @@ BLOCK_TARGETS = [
                   (r"rand::rng\(\)\.random_range\(", "jitter_source.random_range(")],
     ),
     dict(
+        # C07: registration of an upstream TCP query in the per-upstream id -> waiter map (the statements of send_tcp_query before the write)
+        name="tcp_register_waiter", file="crates/erbium-core/src/dns/outquery.rs",
+        header=r"async\s+fn\s+send_tcp_query\s*\([^{]*\{",
+        start=r"\A\s*", end=r"if\s+let\s+Some\(ref\s+mut\s+tcp_sock\)\s*=\s*self\.tcp",
+        signature="pub fn lifted_tcp_register_waiter(self_: &mut TcpShim, msg: TcpMsgShim) -> Result<(), Error>",
+        prologue="", epilogue="Ok(())",
+        rewrites=[(r"\bself\.", "self_.")],
+    ),
+    dict(
         name="outquery_accept_reply", file="crates/erbium-core/src/dns/outquery.rs",
         header=r"async\s+fn\s+handle_query_internal\s*\([^{]*\{",
         start=r"let\s+out_reply\s*;", end=r"if\s+out_reply\.qid\s*!=\s*id",
